@@ -72,3 +72,26 @@ package discovery
 //@   // a zombie is resurrected only by an update that could also be applied: consistent fields, then the owner's signature (finding F20)
 //@   site call MarkEdgeLive: assert ret(VerifyChannelUpdateSignature) == nil && arg(2) == scid && ret(ValidateChannelUpdateFields) == nil
 //@   site call ValidateChannelUpdateFields: assert arg(1) == msg
+//@
+//@ // ---- announcement_signatures: the proof assembled from our half and the peer's half is stored, and the channel announcement handed
+//@ // ---- on for broadcast, only after the FULL announcement carrying all four signatures was validated - whichever half arrived last
+//@ // ---- (round-5 seeded change C20-13 validated only when the remote half completed the proof)
+//@ func (d *AuthenticatedGossiper) handleAnnSig
+//@   props C20
+//@   loop * havoc
+//@   site call ValidateChannelAnn: assert arg(0) == retn(CreateChanAnnouncement, 0) && retn(CreateChanAnnouncement, 3) == nil
+//@   site call CreateChanAnnouncement nth 1: assert arg(0) == chanInfo && chanInfo.AuthProof == dbProof
+//@   site call AddProof: assert called(ValidateChannelAnn) && ret(ValidateChannelAnn) == nil && arg(2) == dbProof && arg(1) == ann.ShortChannelID
+//@   site call append nth 0 as announcement-after-proof-stored: assert called(ValidateChannelAnn) && ret(ValidateChannelAnn) == nil && ret(AddProof) == nil
+//@   // the four signatures go into the proof in node order: ours first exactly when we are node 1
+//@   site call NewV1ChannelAuthProof nth 0: assert isFirstNode && arg(0) == ret(ToSignatureBytes, 0) && arg(1) == ret(ToSignatureBytes, 1) &&
+//@        arg(2) == ret(ToSignatureBytes, 2) && arg(3) == ret(ToSignatureBytes, 3)
+//@   site call NewV1ChannelAuthProof nth 1: assert !isFirstNode
+//@   site call ToSignatureBytes nth 0: assert arg(0) == addr(ann.NodeSignature)
+//@   site call ToSignatureBytes nth 1: assert arg(0) == addr(oppV1.NodeSignature)
+//@   site call ToSignatureBytes nth 2: assert arg(0) == addr(ann.BitcoinSignature)
+//@   site call ToSignatureBytes nth 3: assert arg(0) == addr(oppV1.BitcoinSignature)
+//@   site call ToSignatureBytes nth 4: assert arg(0) == addr(oppV1.NodeSignature)
+//@   site call ToSignatureBytes nth 5: assert arg(0) == addr(ann.NodeSignature)
+//@   site call ToSignatureBytes nth 6: assert arg(0) == addr(oppV1.BitcoinSignature)
+//@   site call ToSignatureBytes nth 7: assert arg(0) == addr(ann.BitcoinSignature)
